@@ -716,6 +716,26 @@ def install(root, mounts, uid, plan, logfd):
             psutil.disk_partitions = disk_partitions
         except ImportError:
             pass
+    if plan.get('ro_volumes'):
+        # volumes mounted read-only as statvfs() reports it (ST_RDONLY); the
+        # unchanged commands never ask
+        _ro = set(plan['ro_volumes'])
+        _sv = os.statvfs
+
+        def statvfs(path):
+            r = _sv(path)
+            try:
+                p_ = posixpath.realpath(os.fsdecode(os.fspath(path))) \
+                    if not isinstance(path, int) else None
+                if p_ and sh.volume_of(p_) in _ro:
+                    c_, (t_, d_) = r.__reduce__()
+                    t_ = list(t_)
+                    t_[8] |= os.ST_RDONLY
+                    r = c_(tuple(t_), dict(d_))
+            except Exception:
+                pass
+            return r
+        os.statvfs = statvfs
     if plan.get('passwd'):
         # the account database as --all-users sees it: [name, uid, home]
         import pwd as _pwd
